@@ -230,7 +230,41 @@ class Gen:
         self.awaited.add(q)
         self.feat.add("relay")
 
-    MENU = [("concat", 5), ("slice", 5), ("dup", 2), ("drop", 3), ("tuple", 3), ("get", 3), ("closure_call", 3),
+    FILTER = "#'bin { =m => { [m, m] __binary_concat__ __binary_length__ { | =0 => [] | =k => Ok } } }"
+
+    def preempt_int(self):
+        """select [body-less receiver, FILTER receiver]: an int arriving while the filter runs on a
+        binary message completes the select through the earlier source with the message still held"""
+        p = self.fresh("p")
+        a = self.pick_bin()
+        self.stmts.append("%s = @{ ! [#'int, %s] =a, ! [#'bin, 60] =b, ! [#'int, 60] =c, 0 }" % (p, self.FILTER))
+        self.stmts.append("%s %s" % (a[0], p))
+        self.stmts.append("%d %s" % (self.r.randint(1, 99), p))
+        self.stmts.append("!%s =%s" % (p, self.fresh("r")))
+        self.feat.add("preempt")
+
+    def preempt_timeout(self):
+        """select [timeout, FILTER receiver]: the timeout expires while the filter runs"""
+        p = self.fresh("p")
+        a = self.pick_bin()
+        self.stmts.append("%s = @{ ! [%d, %s] =a, ! [#'bin, 60] =b, 0 }" % (p, self.r.choice([5, 15, 30]), self.FILTER))
+        self.stmts.append("%s %s" % (a[0], p))
+        self.stmts.append("!%s =%s" % (p, self.fresh("r")))
+        self.feat.add("preempt")
+
+    def preempt_proc(self):
+        """select [awaited process, FILTER receiver]: the process finishes while the filter runs"""
+        q, p = self.fresh("p"), self.fresh("p")
+        a = self.pick_bin()
+        self.stmts.append("%s = @{ !'int }" % q)
+        self.stmts.append("%s = @{ ! [%s, %s] =a, ! [#'bin, 60] =b, 0 }" % (p, q, self.FILTER))
+        self.stmts.append("%s %s" % (a[0], p))
+        self.stmts.append("%d %s" % (self.r.randint(1, 99), q))
+        self.stmts.append("!%s =%s" % (p, self.fresh("r")))
+        self.awaited.add(q)
+        self.feat.add("preempt")
+
+    MENU = [("preempt_int", 2), ("preempt_timeout", 2), ("preempt_proc", 2), ("concat", 5), ("slice", 5), ("dup", 2), ("drop", 3), ("tuple", 3), ("get", 3), ("closure_call", 3),
             ("tail_loop", 2), ("spawn_captures", 4), ("spawn_arg", 3), ("await_", 5), ("echo", 3), ("filtered", 3),
             ("filtered_bin", 2), ("race", 2), ("relay", 2), ("new_const", 2)]
 
@@ -248,9 +282,9 @@ class Gen:
         return self.stmts
 
 
-def case_line(src, workers, quantum, sched, trace, persistent=False, repl=None, maxops=6000):
-    s = "(case (src %s) (workers %d) (quantum %d) (persistent %d) (sched %s) (trace %d) (maxops %d)" % (
-        sexpr.quote(src), workers, quantum, 1 if persistent else 0, " ".join(map(str, sched)), 1 if trace else 0, maxops)
+def case_line(src, workers, quantum, sched, trace, persistent=False, repl=None, maxops=6000, clock=0):
+    s = "(case (src %s) (workers %d) (quantum %d) (persistent %d) (sched %s) (trace %d) (maxops %d) (clock %d)" % (
+        sexpr.quote(src), workers, quantum, 1 if persistent else 0, " ".join(map(str, sched)), 1 if trace else 0, maxops, clock)
     if repl:
         s += " (repl %s)" % " ".join("(%s %s)" % (k, " ".join(map(str, v))) for k, v in repl)
     return s + ")"
@@ -330,6 +364,12 @@ def run(ctx):
                 corpus_sources.append((fn, sexpr.parse(ln), expected))
                 expected = None
     for fn, src, expected in corpus_sources:
+        if "scale" in fn:
+            # large transfers: big quantum, no per-instruction trace (the oracle still runs after every step)
+            for w, q in ((2, 1000), (1, 1000)):
+                cases.append((case_line(src, w, q, [0, 1, 2], False, maxops=60000), {"origin": fn, "kind": "corpus-src", "src": src,
+                                                                                     "workers": w, "quantum": q, "trace": False}))
+            continue
         for w, q in ((1, 1), (2, 1), (2, 3)):
             cases.append((case_line(src, w, q, [0, 1, 1, 0, 2], q == 1), {"origin": fn, "kind": "corpus-src", "src": src,
                                                                           "workers": w, "quantum": q, "trace": q == 1}))
@@ -343,7 +383,7 @@ def run(ctx):
             for (fn, s, e), o in zip(f28, out):
                 if o.strip() != e:
                     f28_bad += 1
-                    ctx.violation({"kind": "impl-violation", "what": "binaries sent through spawn captures/argument read back wrong",
+                    ctx.violation({"kind": "impl-violation", "what": "binaries sent to / spawned into another process read back wrong (real Environment + Workers)",
                                    "source": s, "expected": e, "got": o, "origin": fn})
 
     # ---------------- generated programs
@@ -364,9 +404,10 @@ def run(ctx):
             if pers:
                 repl = [(rng.choice(["orphans", "compact"]), [rng.randint(0, 40) for _ in range(rng.randint(0, 4))])
                         for _ in range(rng.randint(1, 3))]
-            cases.append((case_line(src, w, 1, sched, True, pers, repl),
+            clock = rng.choice([0, 0, 1, 3])
+            cases.append((case_line(src, w, 1, sched, True, pers, repl, clock=clock),
                           {"kind": "gen", "prog": pi, "workers": w, "quantum": 1, "sched": sched, "trace": True,
-                           "persistent": pers, "repl": repl}))
+                           "persistent": pers, "repl": repl, "clock": clock}))
         # oracle only: other quanta and schedules
         for _ in range(nsched_oracle):
             w = rng.choice([1, 1, 2, 3])
@@ -377,9 +418,10 @@ def run(ctx):
             if pers:
                 repl = [(rng.choice(["orphans", "compact"]), [rng.randint(0, 40) for _ in range(rng.randint(0, 4))])
                         for _ in range(rng.randint(1, 3))]
-            cases.append((case_line(src, w, q, sched, False, pers, repl),
+            clock = rng.choice([0, 0, 1, 3, 7])
+            cases.append((case_line(src, w, q, sched, False, pers, repl, clock=clock),
                           {"kind": "gen", "prog": pi, "workers": w, "quantum": q, "sched": sched, "trace": False,
-                           "persistent": pers, "repl": repl}))
+                           "persistent": pers, "repl": repl, "clock": clock}))
 
     # ---------------- REPL sessions on the REAL Environment + Workers + Repl (oracle only)
     env_cases = []
@@ -410,7 +452,7 @@ def run(ctx):
     rc2, mout = ctx.run_sharded(drv, tr_lines, shards=16, timeout=1500)
     model = dict(zip(traced, mout))
 
-    tot = dict(ops=0, steps=0, instructions=0, transfers=0, cross=0, reused=0, reclaimed=0, selects=0, filters=0, orphans=0, repl=0)
+    tot = dict(ops=0, steps=0, instructions=0, transfers=0, cross=0, reused=0, reclaimed=0, selects=0, filters=0, preempted=0, orphans=0, repl=0)
     n_ok = n_limit = n_compile = 0
     progs_shared = set()
     progs_reused = set()
@@ -425,6 +467,7 @@ def run(ctx):
     modes_seen = {}
     ops_compared = 0
     f9_cases = resover_cases = f46_cases = 0
+    runs_preempted = 0
     distinct = set()
     nontrivial = 0
     samples = []
@@ -455,6 +498,8 @@ def run(ctx):
             progs_orphans.add(pkey)
         if int(stats.get("repl", "0")) > 0:
             progs_repl.add(pkey)
+        if int(stats.get("preempted", "0")) > 0:
+            runs_preempted += 1
         distinct.add(line)
         if int(stats.get("reclaimed", "0")) > 0 or int(stats.get("transfers", "0")) > 0:
             nontrivial += 1
@@ -525,7 +570,9 @@ def run(ctx):
         "operations_oracle_checked": tot["ops"], "executor_steps": tot["steps"], "instructions_executed": tot["instructions"],
         "binary_transfers_between_processes": tot["transfers"],
         "slots_reclaimed": tot["reclaimed"], "allocations_reusing_a_freed_slot": tot["reused"],
-        "select_instructions": tot["selects"], "receive_filter_invocations": tot["filters"], "repl_operations": tot["repl"],
+        "select_instructions": tot["selects"], "receive_filter_invocations": tot["filters"],
+        "selects_completed_through_another_source_while_a_filter_held_a_message": tot["preempted"],
+        "runs_with_such_a_preempted_filter": runs_preempted, "repl_operations": tot["repl"],
         "programs_sharing_a_binary_between_processes": len(progs_shared),
         "programs_reusing_a_freed_slot": len(progs_reused),
         "programs_through_select_filters": len(progs_filter),
@@ -572,7 +619,8 @@ def shrink(ctx, qh, obj, stmts, meta):
     """greedy: drop statements while the same failure class persists (a statement whose removal
     breaks compilation is kept), then shorten the schedule."""
     def fails(st, sched):
-        line = case_line(", ".join(st), meta["workers"], meta["quantum"], sched, False, meta.get("persistent", False), meta.get("repl"))
+        line = case_line(", ".join(st), meta["workers"], meta["quantum"], sched, False, meta.get("persistent", False), meta.get("repl"),
+                         clock=meta.get("clock", 0))
         rc, out = ctx.run_bin(qh, [line], timeout=120)
         if not out:
             return None
